@@ -35,7 +35,9 @@ CHECKS = {
         "the thorough tier); 1-3 factor strings, quantity strings and single-mutation malformed strings "
         "are generated with Hypothesis and decided by an independent reference grammar (ACCEPT: same "
         "dimension, base units, SI scale; REJECT: must raise; UNSPEC: nothing asserted); print->parse "
-        "round trip over all unit systems x exponents -9..9 x any finite double must be bit-identical.",
+        "round trip over all unit systems x exponents -9..9 x any finite double must be bit-identical. The "
+        "thorough tier adds a coverage-guided Atheris campaign (fuzz/unit_text_fuzz.py, 2 x 1.5e6 executions) with "
+        "the same oracle inside the target.",
         "Trusts vlib/unitgrammar.py (written from documentation/using_quantities_with_units.rst) and "
         "vlib/si.py. Text the documentation neither allows nor lists as wrong is not asserted."),
     "C01": (
@@ -115,7 +117,8 @@ CHECKS = {
         "ssto/psto/dsto/order/rorder/substrates/products and the print-parse round trip are compared with "
         "the summed coefficients of the spec; constants of orders 0..8 in all unit systems are compared in SI "
         "and any other dimension must raise; split() and K are compared per environment; invalid networks "
-        "must raise while their valid twin is accepted.",
+        "must raise while their valid twin is accepted. The thorough tier adds an Atheris campaign "
+        "(fuzz/equation_fuzz.py, 2 x 1.5e6 executions) comparing Reaction(text) with a three-valued reference parser.",
         "Labels are drawn without Unicode white space, '+' and '->'. K facet restricted to mild unit systems "
         "and orders <= 4 (float conversion factors stay finite)."),
     "C20": (
@@ -280,6 +283,12 @@ def main():
             "add_only": True,
         },
         "engines": [
+            {"name": "atheris", "path": "/verif/.deps (atheris 3.1, installed by setup.sh) + /verif/fuzz/*.py",
+             "serves_properties": ["C18", "C19"],
+             "kind_free_text": "coverage-guided fuzzing of the Python text parsers, reference oracle inside the target (thorough tier)"},
+            {"name": "libfuzzer", "path": "/verif/fuzz/engine_fuzz.cpp (clang++-14 -fsanitize=fuzzer,address,undefined)",
+             "serves_properties": ["C11"],
+             "kind_free_text": "coverage-guided fuzzing of the engine's C entry points with valid decoded arguments (thorough tier)"},
             {"name": "hypothesis", "path": "/venv (hypothesis 6.168)",
              "serves_properties": [c["property_id"] for c in checks],
              "kind_free_text": "property-based testing (Hypothesis strategies, seeded by VERIF_SEED) and "
